@@ -1,6 +1,9 @@
 package main
 
 import (
+	"crypto/sha256"
+	"encoding/hex"
+	"os"
 	"fmt"
 	"go/ast"
 	"go/constant"
@@ -71,6 +74,7 @@ func (se *SpecEnv) notePattern(term string) {
 	if se.pats == nil || len(se.qvars) == 0 {
 		return
 	}
+	term = se.fc.vc.expandAbbr(term)
 	qv := se.qvars[len(se.qvars)-1]
 	if !containsToken(term, qv) {
 		return
@@ -883,14 +887,43 @@ func (se *SpecEnv) call(x *ast.CallExpr) (Val, error) {
 	s.pkgPath = pf.PkgPath
 	// parameters shadow everything: a pure function sees only its parameters (plus bound variables via terms)
 	s.vars = map[string]Val{}
+	// large argument terms that the body mentions more than once are bound with an SMT let instead of being
+	// copied (the difficulty-adjustment specification otherwise expands to megabytes)
+	var lets []string
 	for i, p := range pf.Params {
 		a := args[i]
 		a.Typ = p.Type
+		if !noAbbrev && len(a.T) > 1500 && !strings.HasPrefix(a.T, "(mk-slice") && a.Tup == nil && a.Loc == nil && !strings.HasPrefix(a.T, "(mk.") && countIdent(pf.Body, p.Name) >= 2 {
+			fc.vc.nfresh++
+			n := fmt.Sprintf("l!%s!%d", smtIdent(p.Name), fc.vc.nfresh)
+			if fc.vc.abbr == nil {
+				fc.vc.abbr = map[string]string{}
+			}
+			fc.vc.abbr[n] = a.T
+			lets = append(lets, "("+n+" "+a.T+")")
+			a.T = n
+		}
 		s.vars[p.Name] = a
 	}
+	if len(lets) > 0 {
+		fc.vc.abbrActive++
+	}
 	r, err := s.expr(pf.Body)
+	if len(lets) > 0 {
+		fc.vc.abbrActive--
+	}
 	if err != nil {
 		return Val{}, fmt.Errorf("in %s: %v", name, err)
+	}
+	if len(lets) > 0 {
+		if r.Tup != nil || r.Loc != nil {
+			r.T = fc.vc.expandAbbr(r.T)
+			for i := range r.Tup {
+				r.Tup[i].T = fc.vc.expandAbbr(r.Tup[i].T)
+			}
+		} else if abbrRe.MatchString(r.T) {
+			r.T = "(let (" + strings.Join(lets, " ") + ") " + r.T + ")"
+		}
 	}
 	if r.Typ == untypedNil || r.S == fc.vc.sortOf(pf.Ret) {
 		r.Typ = pf.Ret
@@ -918,7 +951,7 @@ func (se *SpecEnv) quantRange(kind string, x *ast.CallExpr) (Val, error) {
 		return Val{}, err
 	}
 	fc.vc.nfresh++
-	m := fmt.Sprintf("q!%s!%d", id.Name, fc.vc.nfresh)
+	m := se.qname(id.Name, x)
 	// find a slice indexed by exactly i
 	off := "0"
 	var found ast.Expr
@@ -1018,7 +1051,7 @@ func (se *SpecEnv) quantSort(kind string, x *ast.CallExpr) (Val, error) {
 		return Val{}, err
 	}
 	fc.vc.nfresh++
-	m := fmt.Sprintf("q!%s!%d", id.Name, fc.vc.nfresh)
+	m := se.qname(id.Name, x)
 	s := se.sub()
 	var pats []string
 	s.pats = &pats
@@ -1053,6 +1086,7 @@ func (se *SpecEnv) heapFunc(pf *PureFunc, args []Val) (Val, error) {
 	fc := se.fc
 	pkg := fc.prog.pkgByPath(pf.PkgPath)
 	var compTerms, compSorts []string
+	readComps := map[string]bool{"alloc": true}
 	for _, r := range pf.Reads {
 		switch x := r.(type) {
 		case *ast.SelectorExpr:
@@ -1066,6 +1100,7 @@ func (se *SpecEnv) heapFunc(pf *PureFunc, args []Val) (Val, error) {
 					srt := arraySort(string(f.sort))
 					compTerms = append(compTerms, fc.compAt(se.st, fieldComp(t, f.name), srt))
 					compSorts = append(compSorts, srt)
+					readComps[fieldComp(t, f.name)] = true
 					found = true
 				}
 			}
@@ -1086,6 +1121,7 @@ func (se *SpecEnv) heapFunc(pf *PureFunc, args []Val) (Val, error) {
 				srt := arraySort(arraySort(fc.sortStr(t)))
 				compTerms = append(compTerms, fc.compAt(se.st, elemComp(t), srt))
 				compSorts = append(compSorts, srt)
+				readComps[elemComp(t)] = true
 			case "maps":
 				mt, ok := t.Underlying().(*types.Map)
 				if !ok {
@@ -1093,11 +1129,19 @@ func (se *SpecEnv) heapFunc(pf *PureFunc, args []Val) (Val, error) {
 				}
 				ks, vs := fc.mapSorts(mt)
 				mh, mv, _ := mapComps(t)
+				readComps[mh], readComps[mv] = true, true
 				compTerms = append(compTerms, fc.compAt(se.st, mh, arraySort("(Array "+ks+" Bool)")), fc.compAt(se.st, mv, arraySort("(Array "+ks+" "+vs+")")))
 				compSorts = append(compSorts, arraySort("(Array "+ks+" Bool)"), arraySort("(Array "+ks+" "+vs+")"))
 			default:
 				return Val{}, fmt.Errorf("unsupported reads item %s", exprString(r))
 			}
+		case *ast.Ident:
+			if x.Name != "bigv" {
+				return Val{}, fmt.Errorf("unsupported reads item %s", exprString(r))
+			}
+			compTerms = append(compTerms, fc.compAt(se.st, bigComp, arraySort("Int")))
+			compSorts = append(compSorts, arraySort("Int"))
+			readComps[bigComp] = true
 		default:
 			return Val{}, fmt.Errorf("unsupported reads item %s", exprString(r))
 		}
@@ -1127,6 +1171,11 @@ func (se *SpecEnv) heapFunc(pf *PureFunc, args []Val) (Val, error) {
 	// definitional axioms for this heap tuple, once: fuel-bounded unfolding (Dafny style) so that E-matching
 	// cannot loop along the parent chain
 	key := fn + "|" + strings.Join(compTerms, "|")
+	if pf.Opaque && !fc.topCon().Reveal[pf.Name] {
+		// the definition stays hidden here: the symbol is an uninterpreted function of the components it reads
+		// (the reads clause is checked for completeness where the function is revealed)
+		return res, nil
+	}
 	if !fc.vc.unfolded[key] {
 		fc.vc.unfolded[key] = true
 		for level := maxFuel; level >= 1; level-- {
@@ -1145,9 +1194,30 @@ func (se *SpecEnv) heapFunc(pf *PureFunc, args []Val) (Val, error) {
 				decl = append(decl, "("+q+" "+argSorts[i]+")")
 				s.vars[p.Name] = Val{T: q, S: fc.vc.sortOf(p.Type), Typ: p.Type}
 			}
+			saveTrace := fc.vc.compTrace
+			fc.vc.compTrace = map[string]bool{}
 			body, err := s.expr(pf.Body)
+			trace := fc.vc.compTrace
+			fc.vc.compTrace = saveTrace
 			if err != nil {
 				return Val{}, fmt.Errorf("in %s: %v", pf.Name, err)
+			}
+			for c := range trace {
+				if saveTrace != nil {
+					saveTrace[c] = true
+				}
+				if readComps[c] {
+					continue
+				}
+				// touched while building a struct value; only an occurrence in the resulting term is a read
+				srt, ok := se.st.sorts[c]
+				if !ok {
+					srt = fc.cur.sorts[c]
+				}
+				ct := fc.compAt(se.st, c, srt)
+				if containsToken(fc.vc.expandAbbr(body.T), ct) {
+					return Val{}, fmt.Errorf("hfunc %s reads heap component %s which its reads clause does not list", pf.Name, c)
+				}
 			}
 			bt := body.T
 			if body.Typ == untypedNil && res.S == SSlice {
@@ -1197,4 +1267,31 @@ func (fc *FnCtx) hash32Type() types.Type {
 		}
 	}
 	return tInt
+}
+
+// noAbbrev switches the let-binding of large specification-function arguments off (debugging aid).
+var noAbbrev = os.Getenv("GOVC_NOABBREV") != ""
+
+func countIdent(e ast.Expr, name string) int {
+	n := 0
+	ast.Inspect(e, func(k ast.Node) bool {
+		if id, ok := k.(*ast.Ident); ok && id.Name == name {
+			n++
+		}
+		return true
+	})
+	return n
+}
+
+// qname names a quantified variable after the source text of its quantifier and the nesting depth, so that two
+// translations of the same specification text (a lemma and the postcondition it discharges, an invariant assumed and
+// re-proved) give syntactically identical quantifiers: the solvers compare bound names, and identical formulas then
+// cancel propositionally instead of by instantiation.
+func (se *SpecEnv) qname(id string, x ast.Expr) string {
+	if os.Getenv("GOVC_UNIQQ") != "" {
+		se.fc.vc.nfresh++
+		return fmt.Sprintf("q!%s!%d", id, se.fc.vc.nfresh)
+	}
+	h := sha256.Sum256([]byte(exprString(x)))
+	return fmt.Sprintf("q!%s!%s_%d", id, hex.EncodeToString(h[:4]), len(se.qvars))
 }
